@@ -358,7 +358,9 @@ func (a *Allocator) realloc(req *Request, nodes NodeMask, types TypeMask) (zone 
 	}()
 
 	newNodes, newTypes := a.expand(req.zone|nodes, types)
-	if newNodes == 0 && (a.zoneType(req.zone|nodes)&types) != types {
+	// Not finding new nodes is an error only if a requested type that does
+	// exist in the system is still missing from the zone.
+	if missing := types &^ a.zoneType(req.zone|nodes); newNodes == 0 && (missing&a.masks.types) != 0 {
 		return 0, nil, fmt.Errorf("%w: failed to reallocate, can't find new %s nodes",
 			ErrNoMem, types)
 	}
